@@ -203,3 +203,23 @@ _generic("C18", pipeline_props,
                "names cirkit.pipeline._PIPELINE_CONTEXT, PipelineContext._compiler and "
                "PipelineContext._op_registry (read-only). Re-entering an active context is excluded "
                "as the property excludes it. Bounds: contexts, circuits, history length."))
+
+from . import param_props  # noqa: E402  pylint: disable=wrong-import-position
+
+_generic("C14", param_props,
+         "TLC enumerates parameter graphs: node type (index, sum, Hadamard, Kronecker, outer "
+         "product / sum, square, clamp, conjugate, reductions, mixing weights, polynomial product / "
+         "differential, Gaussian-product mean / stddev, and through log-charts exp, log, softplus, "
+         "sigmoid, scaled sigmoid, softmax, log-softmax, reduce-LSE) x leaf shapes of rank 1-3 x "
+         "every axis (passed non-negative or negative) x compositions of depth <= 3 x leaf kinds "
+         "(tensor, constant, reference) and computes the documented function over exact rationals "
+         "for two leaf valuations; the compiled graph must have the declared shape and the "
+         "expected values, and every node re-instantiated with two folds must map the two stacked "
+         "valuations to the two expected results.",
+         "Transcription of every parameter node's documented function into TLA+ over exact "
+         "rationals; TLC's state graph is turned into one implementation test per state.",
+         "TLA+ tensor semantics of parameter nodes (ParamSys.tla) + TLC enumeration + replay through "
+         "compile_parameter and folded node instantiation",
+         note=("Trusted base: TLC's evaluation of ParamSys.tla, numpy charts (log/exp) for the "
+               "transcendental nodes, float64 comparison at rtol 1e-9. Gaussian-product "
+               "log-partition is not covered (no rational form). Bounded shapes and depth."))
